@@ -4,9 +4,9 @@ namespace MpVerif.C14
 
 theorem codeOK_ub_false {c : Code} (h : c ≠ .fuel) : CodeOK false c := ⟨h, by simp⟩
 
-theorem gsuf_inv {fx : Bool} {nv nc : Nat} (f : Nat) (pol : Policy) (buf : Buf) (inp : Bytes)
+theorem gsuf_inv {fx fm : Bool} {nv nc : Nat} (f : Nat) (pol : Policy) (buf : Buf) (inp : Bytes)
     (hs : SanePol pol) (hf : inp.length < f) (hb : buf.length = 512) :
-    RInv fx (EvOK nv nc) (gsuf fx f pol buf inp) := by
+    RInv fx fm (EvOK nv nc) (gsuf fx f pol buf inp) := by
   induction f generalizing buf inp with
   | zero => omega
   | succ f ih =>
@@ -54,9 +54,9 @@ theorem gsuf_inv {fx : Bool} {nv nc : Nat} (f : Nat) (pol : Policy) (buf : Buf) 
               · intro _
                 exact ih _ _ (by omega) hfacts.2.1
 
-theorem bsuf_inv {fx : Bool} {nv nc : Nat} (f : Nat) (pol : Policy) (inp : Bytes)
+theorem bsuf_inv {fx fm : Bool} {nv nc : Nat} (f : Nat) (pol : Policy) (inp : Bytes)
     (hs : SanePol pol) (hf : inp.length < f) :
-    RInv fx (EvOK nv nc) (bsuf fx f pol inp) := by
+    RInv fx fm (EvOK nv nc) (bsuf fx f pol inp) := by
   induction f generalizing inp with
   | zero => omega
   | succ f ih =>
@@ -117,8 +117,8 @@ theorem bsuf_inv {fx : Bool} {nv nc : Nat} (f : Nat) (pol : Policy) (inp : Bytes
                         · exact rinv_err (codeOK_plain (.inl rfl))
                         · exact ih _ (by omega)
 
-theorem textTail_inv {fx : Bool} {nv nc : Nat} (pol : Policy) (inp : Bytes) (hs : SanePol pol) :
-    RInv fx (EvOK nv nc) (textTail fx pol inp) := by
+theorem textTail_inv {fx fm : Bool} {nv nc : Nat} (pol : Policy) (inp : Bytes) (hs : SanePol pol) :
+    RInv fx fm (EvOK nv nc) (textTail fx pol inp) := by
   unfold textTail
   split
   · exact rinv_done
@@ -134,8 +134,8 @@ theorem textTail_inv {fx : Bool} {nv nc : Nat} (pol : Policy) (inp : Bytes) (hs 
           · rfl
           · exact gsuf_inv _ _ _ _ hs (by omega) (by simp only [bufInit, List.length_replicate])
 
-theorem binTail_inv {fx : Bool} {nv nc : Nat} (pol : Policy) (inp : Bytes) (hs : SanePol pol) :
-    RInv fx (EvOK nv nc) (binTail fx pol inp) := by
+theorem binTail_inv {fx fm : Bool} {nv nc : Nat} (pol : Policy) (inp : Bytes) (hs : SanePol pol) :
+    RInv fx fm (EvOK nv nc) (binTail fx pol inp) := by
   unfold binTail
   split
   · exact rinv_done
@@ -155,15 +155,15 @@ theorem binTail_inv {fx : Bool} {nv nc : Nat} (pol : Policy) (inp : Bytes) (hs :
               · exact bsuf_inv _ _ _ hs (by omega)
               · exact rinv_done
 
-theorem afterPrimalBin_inv {fx : Bool} {nv nc : Nat} (pol : Policy) (i : Nat) (inp : Bytes) (hs : SanePol pol) :
-    RInv fx (EvOK nv nc) (afterPrimalBin fx pol i inp) := by
+theorem afterPrimalBin_inv {fx fm : Bool} {nv nc : Nat} (pol : Policy) (i : Nat) (inp : Bytes) (hs : SanePol pol) :
+    RInv fx fm (EvOK nv nc) (afterPrimalBin fx pol i inp) := by
   unfold afterPrimalBin
   split
   · exact rinv_err (codeOK_plain (.inr (.inr (.inl rfl))))
   · exact binTail_inv _ _ hs
 
-theorem primalPart_inv {fx : Bool} {nv nc : Nat} (pol : Policy) (binary : Bool) (i : Nat) (inp : Bytes)
-    (hs : SanePol pol) (hi : i ≤ nv) : RInv fx (EvOK nv nc) (primalPart fx pol binary i inp) := by
+theorem primalPart_inv {fx fm : Bool} {nv nc : Nat} (pol : Policy) (binary : Bool) (i : Nat) (inp : Bytes)
+    (hs : SanePol pol) (hi : i ≤ nv) : RInv fx fm (EvOK nv nc) (primalPart fx pol binary i inp) := by
   unfold primalPart
   split
   · split
@@ -185,8 +185,8 @@ theorem primalPart_inv {fx : Bool} {nv nc : Nat} (pol : Policy) (binary : Bool) 
       · exact hv.2.2
       · intro _; exact textTail_inv _ _ hs
 
-theorem afterDual_inv {fx : Bool} {nv nc : Nat} (pol : Policy) (binary : Bool) (j i : Nat) (inp : Bytes)
-    (hs : SanePol pol) (hi : i ≤ nv) : RInv fx (EvOK nv nc) (afterDual fx pol binary j i inp) := by
+theorem afterDual_inv {fx fm : Bool} {nv nc : Nat} (pol : Policy) (binary : Bool) (j i : Nat) (inp : Bytes)
+    (hs : SanePol pol) (hi : i ≤ nv) : RInv fx fm (EvOK nv nc) (afterDual fx pol binary j i inp) := by
   unfold afterDual
   split
   · split
@@ -196,8 +196,8 @@ theorem afterDual_inv {fx : Bool} {nv nc : Nat} (pol : Policy) (binary : Bool) (
       · exact primalPart_inv _ _ _ _ hs hi
   · exact primalPart_inv _ _ _ _ hs hi
 
-theorem dualPart_inv {fx : Bool} {nv nc : Nat} (pol : Policy) (binary : Bool) (j i : Nat) (inp : Bytes)
-    (hs : SanePol pol) (hj : j ≤ nc) (hi : i ≤ nv) : RInv fx (EvOK nv nc) (dualPart fx pol binary j i inp) := by
+theorem dualPart_inv {fx fm : Bool} {nv nc : Nat} (pol : Policy) (binary : Bool) (j i : Nat) (inp : Bytes)
+    (hs : SanePol pol) (hj : j ≤ nc) (hi : i ≤ nv) : RInv fx fm (EvOK nv nc) (dualPart fx pol binary j i inp) := by
   unfold dualPart
   split
   · exact afterDual_inv _ _ _ _ _ hs hi
@@ -209,9 +209,9 @@ theorem dualPart_inv {fx : Bool} {nv nc : Nat} (pol : Policy) (binary : Bool) (j
     · exact hv.2.2
     · intro _; exact afterDual_inv _ _ _ _ _ hs hi
 
-theorem preCheck_facts {fx : Bool} {P : Event → Prop} (nv nc : Nat) (pol : Policy) (binary : Bool) (o : Option Opts) (inp : Bytes) :
-    (∀ r, preCheck nv nc pol binary o inp = .error r → RInv fx P r) ∧
-    (∀ j i inp', preCheck nv nc pol binary o inp = .ok (j, i, inp') → j ≤ nc ∧ i ≤ nv) := by
+theorem preCheck_facts {fx fm : Bool} {P : Event → Prop} (nv nc : Nat) (pol : Policy) (binary : Bool) (o : Option Opts) (inp : Bytes) :
+    (∀ r, preCheck fm nv nc pol binary o inp = .error r → RInv fx fm P r) ∧
+    (∀ j i inp', preCheck fm nv nc pol binary o inp = .ok (j, i, inp') → j ≤ nc ∧ i ≤ nv) := by
   unfold preCheck
   cases o with
   | none =>
@@ -241,11 +241,11 @@ theorem preCheck_facts {fx : Bool} {P : Event → Prop} (nv nc : Nat) (pol : Pol
           · refine ⟨fun r h => by simp at h, fun j i inp' h => ?_⟩
             simp at h; obtain ⟨rfl, rfl, _⟩ := h; omega
 
-theorem body_inv {fx : Bool} {nv nc : Nat} (pol : Policy) (binary : Bool) (o : Option Opts) (inp : Bytes)
-    (hs : SanePol pol) : RInv fx (EvOK nv nc) (body fx nv nc pol binary o inp) := by
+theorem body_inv {fx fm : Bool} {nv nc : Nat} (pol : Policy) (binary : Bool) (o : Option Opts) (inp : Bytes)
+    (hs : SanePol pol) : RInv fx fm (EvOK nv nc) (body fx fm nv nc pol binary o inp) := by
   unfold body
-  have hp := preCheck_facts (fx := fx) (P := EvOK nv nc) nv nc pol binary o inp
-  have inner : RInv fx (EvOK nv nc) (match preCheck nv nc pol binary o inp with
+  have hp := preCheck_facts (fx := fx) (fm := fm) (P := EvOK nv nc) nv nc pol binary o inp
+  have inner : RInv fx fm (EvOK nv nc) (match preCheck fm nv nc pol binary o inp with
       | .error r => r
       | .ok (j, i, inp) => dualPart fx pol binary j i inp) := by
     split
@@ -258,8 +258,8 @@ theorem body_inv {fx : Bool} {nv nc : Nat} (pol : Policy) (binary : Bool) (o : O
   | none => exact inner
   | some o => exact rinv_cons trivial rfl inner
 
-theorem msgEvent_inv {fx : Bool} {nv nc : Nat} (binary : Bool) (st : MsgState) (r : Result)
-    (h : RInv fx (EvOK nv nc) r) : RInv fx (EvOK nv nc) (msgEvent binary st r) := by
+theorem msgEvent_inv {fx fm : Bool} {nv nc : Nat} (binary : Bool) (st : MsgState) (r : Result)
+    (h : RInv fx fm (EvOK nv nc) r) : RInv fx fm (EvOK nv nc) (msgEvent binary st r) := by
   unfold msgEvent
   generalize (if st.nbs ≠ 0 then st.msg.dropWhile (· = 8) else st.msg) = m
   dsimp only
@@ -267,8 +267,8 @@ theorem msgEvent_inv {fx : Bool} {nv nc : Nat} (binary : Bool) (st : MsgState) (
   · exact h
   · exact rinv_cons trivial rfl h
 
-theorem readText_inv {fx : Bool} {nv nc : Nat} (pol : Policy) (inp : Bytes) (hs : SanePol pol) :
-    RInv fx (EvOK nv nc) (readText fx nv nc pol inp) := by
+theorem readText_inv {fx fm : Bool} {nv nc : Nat} (pol : Policy) (inp : Bytes) (hs : SanePol pol) :
+    RInv fx fm (EvOK nv nc) (readText fx fm nv nc pol inp) := by
   unfold readText
   split
   · rename_i c hc; exact rinv_err (msgText_err _ _ _ _ (by omega) hc)
@@ -287,8 +287,8 @@ theorem readText_inv {fx : Bool} {nv nc : Nat} (pol : Policy) (inp : Bytes) (hs 
       · simp at hc
     · exact msgEvent_inv _ _ _ (body_inv _ _ _ _ hs)
 
-theorem readBin_inv {fx : Bool} {nv nc : Nat} (pol : Policy) (inp : Bytes) (hs : SanePol pol) :
-    RInv fx (EvOK nv nc) (readBin fx nv nc pol inp) := by
+theorem readBin_inv {fx fm : Bool} {nv nc : Nat} (pol : Policy) (inp : Bytes) (hs : SanePol pol) :
+    RInv fx fm (EvOK nv nc) (readBin fx fm nv nc pol inp) := by
   unfold readBin
   split
   · rename_i c hc; exact rinv_err (msgBin_err _ _ _ _ (by omega) hc)
@@ -303,8 +303,8 @@ theorem readBin_inv {fx : Bool} {nv nc : Nat} (pol : Policy) (inp : Bytes) (hs :
         · exact rinv_err (codeOK_plain (.inr (.inr (.inl rfl))))
         · exact msgEvent_inv _ _ _ (body_inv _ _ _ _ hs)
 
-theorem readSol_inv {fx : Bool} {nv nc : Nat} (pol : Policy) (bytes : Bytes) (hs : SanePol pol) :
-    RInv fx (EvOK nv nc) (readSol fx nv nc pol bytes) := by
+theorem readSol_inv {fx fm : Bool} {nv nc : Nat} (pol : Policy) (bytes : Bytes) (hs : SanePol pol) :
+    RInv fx fm (EvOK nv nc) (readSol fx fm nv nc pol bytes) := by
   unfold readSol
   split
   · split
